@@ -7,7 +7,9 @@
 From Coq Require Import NArith List Bool String.
 Import ListNotations.
 From TP Require Import Base.PyVal Schema.PyLiteral Schema.PyLiteralProofs Schema.CodeGen
-     Schema.CodeGenProofs Gen.EmitSites.
+     Schema.CodeGenProofs Gen.EmitSites Schema.ModuleGen Schema.ModuleGenProofs Gen.ModuleLayout
+     Schema.ModuleLayoutProofs Schema.BackRequired Schema.BackRequiredProofs.
+From Coq Require Import Permutation.
 Local Open Scope N_scope.
 
 (* The full statement (lexical part): whatever the schema, the generator produces source, and that
@@ -111,6 +113,116 @@ Print Assumptions C09_sites.
 Print Assumptions C09_sites_witness.
 Print Assumptions C09_relex.
 
+(* ------------------------------------------------------------------ whole modules
+   (schema_definitions_to_code, write_code_from_schema): the output must not only lex, it must EXECUTE:
+   every reference to a definition is a bare name looked up when the class statement holding it runs. *)
+
+(* The full statement (name-resolution part): every well-formed schema + definitions (every $ref names
+   a definition, definition names distinct) gives a module that executes.  FALSE of the faithful model
+   (definitions are written in declaration order; see the refutations below); kept visible. *)
+Definition C09_module_statement : Prop :=
+  forall (defs : list jclass) (main : jclass),
+    refs_defined [] (defs ++ [main]) = true -> NoDup (map c_name (defs ++ [main])) ->
+    module_names_ok [] module_layout defs main = true.
+
+(* exact characterisation of the modules that execute: every reference of the i-th class statement is
+   to the base namespace or to a class statement strictly before it *)
+Theorem C09_module_names_char : forall base cs, names_ok base cs = true <-> backward base cs.
+Proof. exact names_ok_backward. Qed.
+
+(* definitions that execute on their own + a main class referring only to them: the module executes *)
+Theorem C09_module_ordered : forall base defs main,
+    names_ok base defs = true ->
+    forallb (fun r => str_in r base || str_in r (map c_name defs)) (class_refs main) = true ->
+    names_ok base (defs ++ [main]) = true.
+Proof. exact ordered_module_ok. Qed.
+
+(* which definitions may be left out of a module that executes: exactly the selections closed under
+   reference, references counted in EVERY position (items lists, allOf/anyOf/oneOf/not, nested objects,
+   map values) of the main class and of every kept definition *)
+Theorem C09_module_prune : forall keep base defs main,
+    names_ok base (defs ++ [main]) = true ->
+    names_ok base (filter (keep_class keep) defs ++ [main])
+    = refs_closed keep base (filter (keep_class keep) defs ++ [main]).
+Proof. exact prune_ok_iff. Qed.
+
+Theorem C09_module_dropped_reference : forall keep base defs main,
+    refs_closed keep base (filter (keep_class keep) defs ++ [main]) = false ->
+    names_ok base (filter (keep_class keep) defs ++ [main]) = false.
+Proof. exact dropped_reference_fails. Qed.
+
+(* a recursive definition raises NameError in every order of the class statements *)
+Theorem C09_module_self_reference : forall base c cs,
+    In c cs -> In (c_name c) (class_refs c) -> str_in (c_name c) base = false ->
+    NoDup (map c_name cs) -> names_ok base cs = false.
+Proof. exact self_reference_never_executes. Qed.
+
+Theorem C09_module_no_cycle : forall base cs i j a b,
+    names_ok base cs = true -> NoDup (map c_name cs) ->
+    nth_error cs i = Some a -> nth_error cs j = Some b ->
+    ~ In (c_name a) base -> ~ In (c_name b) base ->
+    In (c_name b) (class_refs a) -> In (c_name a) (class_refs b) -> False.
+Proof. exact executes_no_two_cycle. Qed.
+
+(* the lexical theorem for a whole module, any recognised layout and joiner *)
+Theorem C09_module_relex : forall printable kw tbl lay joiner defs main toks,
+    module_toks lay joiner defs main = Some toks ->
+    forallb (class_sites_ok kw tbl) (defs ++ [main]) = true ->
+    well_sep toks = true ->
+    relex kw tbl (map shape_of toks) (render printable tbl toks) = Some (leaves toks).
+Proof. exact module_relex. Qed.
+
+(* the GENERATED layout of write_code_from_schema: a class statement for every definition, in
+   declaration order, then the main class; hence ordered definitions execute *)
+Theorem C09_module_layout : forall defs main, module_classes module_layout defs main = defs ++ [main].
+Proof. exact layout_classes_complete. Qed.
+
+Theorem C09_module_executes : forall base defs main,
+    names_ok base defs = true ->
+    forallb (fun r => str_in r base || str_in r (map c_name defs)) (class_refs main) = true ->
+    module_names_ok base module_layout defs main = true.
+Proof. exact generated_module_executes. Qed.
+
+Theorem C09_module_total : forall defs main dt mt,
+    defs_toks defs_joiner defs = Some dt -> class_toks main = Some mt ->
+    exists toks, module_toks module_layout defs_joiner defs main = Some toks.
+Proof. exact generated_module_total. Qed.
+
+Print Assumptions C09_module_names_char.
+Print Assumptions C09_module_ordered.
+Print Assumptions C09_module_prune.
+Print Assumptions C09_module_dropped_reference.
+Print Assumptions C09_module_self_reference.
+Print Assumptions C09_module_no_cycle.
+Print Assumptions C09_module_relex.
+Print Assumptions C09_module_layout.
+Print Assumptions C09_module_executes.
+Print Assumptions C09_module_total.
+
+(* ------------------------------------------------------------------ the required list, there and back
+   (the statement's "up to ... required-list order"): the generator takes defaulted properties out of
+   _required, structure_to_schema appends them again *)
+Theorem C09_required_roundtrip : forall req props,
+    NoDup req -> (forall x, In x (defaulted props) -> In x req) ->
+    exists r, final_required (Some req) props = Some (Some r) /\
+              Permutation (back_required r props) req.
+Proof. exact required_roundtrip. Qed.
+
+Theorem C09_required_roundtrip_only_if : forall req props r x,
+    NoDup req -> final_required (Some req) props = Some (Some r) ->
+    In x (defaulted props) -> ~ In x req ->
+    In x (back_required r props) /\ ~ Permutation (back_required r props) req.
+Proof. exact required_roundtrip_only_if. Qed.
+
+Theorem C09_no_required_all_required : forall props,
+    defaulted props = [] ->
+    final_required None props = Some None /\ back_required (map fst props) props = map fst props.
+Proof. exact no_required_all_required. Qed.
+
+Print Assumptions C09_required_roundtrip.
+Print Assumptions C09_required_roundtrip_only_if.
+Print Assumptions C09_no_required_all_required.
+
 (* ------------------------------------------------------------------ refutations of the full statement *)
 
 Definition all_printable (c : N) : bool := true.
@@ -175,3 +287,72 @@ Example C09_nonvacuous :
     = Some (leaves toks) /\
     List.length (leaves toks) = 14%nat.
 Proof. eexists. split; [reflexivity|]. vm_compute. repeat split; reflexivity. Qed.
+
+(* ------------------------------------------------------------------ modules: refutations and non-vacuity *)
+
+Definition int_field : jfield := FNumeric (s2p "Integer") [] None.
+Definition str_field : jfield := FString [] None None.
+
+Definition mk_class (name : string) (props : list (pystr * jfield)) : jclass :=
+  {| c_name := s2p name; c_description := None; c_closed := false;
+     c_required := Some (map fst props); c_props := props |}.
+
+Definition def_A : jclass := mk_class "A" [(s2p "n", int_field)].
+(* B mentions A only inside an anyOf list; Main mentions B only inside a positional items list *)
+Definition def_B : jclass :=
+  mk_class "B" [(s2p "x", FMulti (s2p "AnyOf") IMany [FRef (s2p "A"); str_field] None)].
+Definition main_M : jclass :=
+  mk_class "M" [(s2p "p", FArray [(s2p "additionalItems", s2p "False")] IMany [str_field; FRef (s2p "B")] None)].
+Definition def_T : jclass := mk_class "T" [(s2p "v", int_field); (s2p "next", FRef (s2p "T"))].
+
+(* a definition declared before the one it refers to: well formed, does not execute *)
+Theorem C09_module_refuted_forward_reference :
+  refs_defined [] ([def_B; def_A] ++ [main_M]) = true /\
+  module_names_ok [] module_layout [def_B; def_A] main_M = false /\
+  first_unbound [] (module_classes module_layout [def_B; def_A] main_M) = Some (s2p "A").
+Proof. vm_compute. repeat split; reflexivity. Qed.
+
+(* a recursive definition *)
+Theorem C09_module_refuted_recursive :
+  refs_defined [] ([def_T] ++ [mk_class "M" [(s2p "t", FRef (s2p "T"))]]) = true /\
+  module_names_ok [] module_layout [def_T] (mk_class "M" [(s2p "t", FRef (s2p "T"))]) = false.
+Proof. vm_compute. split; reflexivity. Qed.
+
+Theorem C09_module_statement_refuted : ~ C09_module_statement.
+Proof.
+  intro H. specialize (H [def_B; def_A] main_M eq_refl).
+  assert (Hnd : NoDup (map c_name ([def_B; def_A] ++ [main_M]))).
+  { cbn. repeat constructor; cbn; intuition discriminate. }
+  specialize (H Hnd). vm_compute in H. discriminate.
+Qed.
+
+Print Assumptions C09_module_refuted_forward_reference.
+Print Assumptions C09_module_refuted_recursive.
+Print Assumptions C09_module_statement_refuted.
+
+Definition keep_only (names : list pystr) (n : pystr) : bool := str_in n names.
+
+Example C09_module_nonvacuous :
+  exists toks, module_toks module_layout defs_joiner [def_A; def_B] main_M = Some toks /\
+    module_names_ok [] module_layout [def_A; def_B] main_M = true /\
+    forallb (class_sites_ok py_keywords emit_sites) ([def_A; def_B] ++ [main_M]) = true /\
+    well_sep toks = true /\
+    relex py_keywords emit_sites (map shape_of toks) (render all_printable emit_sites toks) = Some (leaves toks) /\
+    (* hypotheses and both outcomes of C09_module_prune are inhabited: keeping {A, B} is closed, keeping
+       {B} alone (A is referred to only from inside B's anyOf list) or {A} alone is not *)
+    refs_closed (keep_only [s2p "A"; s2p "B"]) []
+                (filter (keep_class (keep_only [s2p "A"; s2p "B"])) [def_A; def_B] ++ [main_M]) = true /\
+    refs_closed (keep_only [s2p "B"]) [] (filter (keep_class (keep_only [s2p "B"])) [def_A; def_B] ++ [main_M]) = false /\
+    names_ok [] (filter (keep_class (keep_only [s2p "B"])) [def_A; def_B] ++ [main_M]) = false /\
+    names_ok [] (filter (keep_class (keep_only [s2p "A"])) [def_A; def_B] ++ [main_M]) = false.
+Proof. eexists. split; [reflexivity|]. vm_compute. repeat split; reflexivity. Qed.
+
+Example C09_required_nonvacuous :
+  let props := [(s2p "a", FString [] None (Some (DScalar (LStr (s2p "x"))))); (s2p "b", FBoolean None);
+                (s2p "c", FNumeric (s2p "Integer") [] (Some (DScalar (LRaw (s2p "3")))))] in
+  defaulted props = [s2p "a"; s2p "c"] /\
+  final_required (Some [s2p "c"; s2p "b"; s2p "a"]) props = Some (Some [s2p "b"]) /\
+  back_required [s2p "b"] props = [s2p "b"; s2p "a"; s2p "c"] /\
+  (* a defaulted property that is not listed comes back listed *)
+  final_required (Some [s2p "b"]) props = Some (Some [s2p "b"]).
+Proof. vm_compute. repeat split; reflexivity. Qed.
